@@ -2,16 +2,105 @@ import RustbusModel.Model.Header
 import RustbusModel.Spec.Header
 import RustbusModel.Lemmas.Wire
 import RustbusModel.Lemmas.WireShape
+import RustbusModel.Lemmas.HeaderField
 /-!
 Lemmas about the header model. Statements fixed; helper lemmas may be added above / in Lemmas/Header*.lean.
 -/
 namespace Rustbus.Header
 open Rustbus Rustbus.Bytes Rustbus.Wire Rustbus.Spec.Wire Rustbus.Spec.Header
 
+/-! ### the fixed part -/
+
+theorem slice_take (buf : List UInt8) (k a b : Nat) (h : a + b ≤ k) :
+    slice (buf.take k) a b = slice buf a b := by
+  simp only [slice, List.drop_take, List.take_take]
+  congr 1; omega
+
+theorem slice_append_left (l r : List UInt8) (a b : Nat) (h : a + b ≤ l.length) :
+    slice (l ++ r) a b = slice l a b := by
+  simp only [slice]
+  rw [List.drop_append_of_le_length (by omega), List.take_append_of_le_length (by simp; omega)]
+
+theorem buf_eq_of_slice (buf : List UInt8) (k : Nat) (l : List UInt8) (h : slice buf 0 k = l) :
+    buf = l ++ buf.drop k := by
+  subst h; simp [slice]
+
+theorem decodeFixed_fixedBytes (fx : Fixed) (rest : List UInt8) (h : fixedOk fx) :
+    decodeFixed (fixedBytes fx ++ rest) = some fx := by
+  obtain ⟨h1, h2, h3, h4, h5, h6⟩ := h
+  obtain ⟨bo, typ, flags, bodyLen, serial⟩ := fx
+  simp only at h1 h2 h3 h4 h5 h6
+  have s1 : slice (fixedBytes ⟨bo, typ, flags, bodyLen, serial⟩ ++ rest) 4 4 = bytesOf bo 4 bodyLen := by
+    have := slice_mid [if bo = .le then 108 else 66, UInt8.ofNat typ, UInt8.ofNat flags, 1]
+      (bytesOf bo 4 bodyLen) (bytesOf bo 4 serial ++ rest) 4 4 rfl (by simp)
+    simpa [fixedBytes] using this
+  have s2 : slice (fixedBytes ⟨bo, typ, flags, bodyLen, serial⟩ ++ rest) 8 4 = bytesOf bo 4 serial := by
+    have := slice_mid ([if bo = .le then 108 else 66, UInt8.ofNat typ, UInt8.ofNat flags, 1] ++
+      bytesOf bo 4 bodyLen) (bytesOf bo 4 serial) rest 8 4 (by simp) (by simp)
+    simpa [fixedBytes] using this
+  unfold decodeFixed
+  rw [if_neg (by simp [fixedBytes])]
+  rw [s1, s2, valOf_bytesOf _ _ _ h4, valOf_bytesOf _ _ _ h6]
+  have t1 : (UInt8.ofNat typ).toNat = typ := by simp [UInt8.toNat_ofNat']; omega
+  have t2 : (UInt8.ofNat flags).toNat = flags := by simp [UInt8.toNat_ofNat']; omega
+  cases bo <;> simp [fixedBytes, t1, t2, h1, h2] <;> omega
+
+theorem decodeFixed_sound (buf : List UInt8) (fx : Fixed) (h : decodeFixed buf = some fx) :
+    12 ≤ buf.length ∧ fixedOk fx ∧ slice buf 0 12 = fixedBytes fx := by
+  unfold decodeFixed at h
+  split at h
+  · simp at h
+  · rename_i hlen
+    have hl4 : (slice buf 4 4).length = 4 := slice_length _ _ _ (by omega)
+    have hl8 : (slice buf 8 4).length = 4 := slice_length _ _ _ (by omega)
+    have v4 := valOf_lt
+    have key : slice buf 0 12 = slice buf 0 4 ++ (slice buf 4 4 ++ slice buf 8 4) := by
+      have : (12 : Nat) = 4 + (4 + 4) := rfl
+      rw [this, slice_add, slice_add]
+    split at h
+    · rename_i e t f ver rest
+      split at h
+      · simp at h
+      · rename_i bo hbo
+        split at h
+        · rename_i ht
+          split at h
+          · rename_i hver
+            split at h
+            · simp at h
+            · rename_i hser
+              simp only [Option.some.injEq] at h
+              subst h
+              refine ⟨by omega, ⟨ht.1, ht.2, f.toNat_lt, ?_, by omega, ?_⟩, ?_⟩
+              · have := valOf_lt bo (slice (e :: t :: f :: ver :: rest) 4 4); rwa [hl4] at this
+              · have := valOf_lt bo (slice (e :: t :: f :: ver :: rest) 8 4); rwa [hl8] at this
+              · rw [key]
+                simp only [fixedBytes]
+                have b4 := bytesOf_valOf bo (slice (e :: t :: f :: ver :: rest) 4 4)
+                have b8 := bytesOf_valOf bo (slice (e :: t :: f :: ver :: rest) 8 4)
+                rw [hl4] at b4; rw [hl8] at b8
+                rw [b4, b8]
+                congr 1
+                subst hver
+                have he : (if bo = ByteOrder.le then (108 : UInt8) else 66) = e := by
+                  split at hbo
+                  · simp only [Option.some.injEq] at hbo; subst hbo; simp [*]
+                  · split at hbo
+                    · simp only [Option.some.injEq] at hbo; subst hbo; simp [*]
+                    · simp at hbo
+                simp [slice, he]
+          · simp at h
+        · simp at h
+    · simp at h
+
 /-- the fixed part is decoded exactly when it is spec valid -/
 theorem decodeFixed_iff (buf : List UInt8) (fx : Fixed) :
     decodeFixed buf = some fx ↔ (12 ≤ buf.length ∧ fixedOk fx ∧ slice buf 0 12 = fixedBytes fx) := by
-  sorry
+  constructor
+  · exact decodeFixed_sound buf fx
+  · rintro ⟨_, hok, hs⟩
+    rw [buf_eq_of_slice buf 12 _ hs]
+    exact decodeFixed_fixedBytes fx _ hok
 
 /-- Header decoding succeeds exactly on spec-valid headers and returns what the bytes say
     (for field arrays within the 64 MiB array limit, which the receive loop enforces beforehand). -/
